@@ -345,6 +345,14 @@ def _tx_case(repo, it, S, spec):
         a_, b_ = show_b(run(it, fb, [], {}, whole)), show_b(run(it, fb, [], {}, part))
         if a_ != b_:
             out.append(("blocks", f"{desc}: .blocks is {b_[0]}:{b_[1]} on the chunk-built twin and {a_[0]}:{a_[1]} on the chromosome-built twin", fb.qual))
+    # the BED12 record in chromosome coordinates is a chromosome-level answer (thick range = CDS bounds, wherever the chunk lies)
+    fbed = repo.fn(f"{cls}.to_bed12")
+    n += 1
+    bw, bp = run(it, fbed, [], {}, whole), run(it, fbed, [], {}, part)
+    sb = lambda kv: (kv[0], it.py_str(kv[1]) if kv[0] == "ok" else kv[1])  # noqa: E731
+    if sb(bw) != sb(bp):
+        out.append(("to_bed12 (chromosome coordinates)", f"{desc}: to_bed12() is {sb(bp)[1]!r} on the chunk-built twin and {sb(bw)[1]!r} on the "
+                    f"chromosome-built twin", fbed.qual))
     if kind.startswith("ctx"):
         # the UTRs of the chunk view are the chromosome UTRs restricted to the chunk (documented: answered in chunk coordinates);
         # asked as well of a transcript whose CDS covers all of it (both UTRs are the EmptyLocation on either twin)
